@@ -208,6 +208,8 @@ def run_history(ctx, spec: dict, record: bool = True) -> str | None:
                 if mech:
                     return mech
             trace.append((name, arg, now))
+            if isinstance(arg, int) and not 0 <= arg <= 100:
+                ctx.count("position_outside_0_100")
             kinds.append(name[0:2])
             ctx.count("op_" + name)
             try:
@@ -333,16 +335,19 @@ def gen_history(rng: random.Random, index: int) -> dict:
 
     n = rng.randint(2, 10)
     ops = []
+    wide_history = rng.random() < 0.3
     tags = ["half", "quarter", "before", "after", "beyond", "most"] + (
         ["at", "fine12", "fine16", "fine20", "fine24", "fine30", "fine40", "pred", "pred"] if dyadic else [])
     for _ in range(n):
         r = rng.random()
+        # the TravelCalculator API accepts any int: 12% of the positions lie outside 0..100 (the rational model does not care)
+        wide = rng.randint(-20, 130) if wide_history and rng.random() < 0.4 else None
         if r < 0.12:
-            op = {"op": "set_position", "arg": rng.choice((0, 100, rng.randint(0, 100)))}
+            op = {"op": "set_position", "arg": wide if wide is not None else rng.choice((0, 100, rng.randint(0, 100)))}
         elif r < 0.30:
-            op = {"op": "update_position", "arg": rng.choice((0, 100, rng.randint(0, 100), rng.randint(0, 100)))}
+            op = {"op": "update_position", "arg": wide if wide is not None else rng.choice((0, 100, rng.randint(0, 100), rng.randint(0, 100)))}
         elif r < 0.58:
-            op = {"op": "start_travel", "arg": rng.choice((0, 100, rng.randint(0, 100), rng.randint(0, 100)))}
+            op = {"op": "start_travel", "arg": wide if wide is not None else rng.choice((0, 100, rng.randint(0, 100), rng.randint(0, 100)))}
         elif r < 0.68:
             op = {"op": "up"}
         elif r < 0.78:
@@ -743,11 +748,11 @@ def run_cover(ctx, spec: dict) -> str | None:
 def run(ctx):
     ctx.rule = (
         "TravelCalculator: history = 2..10 commands from {set_position, update_position, start_travel, up, down, stop}, each followed by "
-        "queries at clock advances drawn from {0, 2^-10, half/quarter/31-32nds of the remaining travel time, remaining-2^-10, exactly remaining, "
+        "(positions 0..100, in 30% of the histories also -20..130) queries at clock advances drawn from {0, 2^-10, half/quarter/31-32nds of the remaining travel time, remaining-2^-10, exactly remaining, "
         "remaining+2^-10, beyond, and (dyadic travel times) remaining-2^-k for k in {12,16,20,24,30,40} resp. the float predecessor of the arrival instant}; travel times 100*m/2^k (75%) or decimal (25%). Cover: 3..9 user commands / bus telegrams with gaps, 6 address "
         "layouts x invert flags. distinct = distinct command-kind strings (per layout for Cover)."
     )
-    ctx.require("probe_at_float_predecessor_of_arrival", "probe_at_arrival_minus_2^-20", "probe_at_arrival_minus_2^-30", "queries", "advance_zero", "advance_positive", "q_mid_travel", "q_after_travel_time", "q_at_rest", "op_stop",
+    ctx.require("position_outside_0_100", "probe_at_float_predecessor_of_arrival", "probe_at_arrival_minus_2^-20", "probe_at_arrival_minus_2^-30", "queries", "advance_zero", "advance_positive", "q_mid_travel", "q_after_travel_time", "q_at_rest", "op_stop",
                 "op_update_position", "cover_queries", "cover_callbacks", "cover_queries_judged", "cover_queries_mid_travel",
                 "cover_queries_after_travel_time", "cover_auto_stop_scheduled", "cover_own_stop_telegrams", "cover_bus_movement_from_rest",
                 "cover_bus_move_after_travel_same", "cover_end_position_command_while_auto_stop_pending")
